@@ -84,6 +84,70 @@ Qed.
 
 End Enc.
 
+(* two prefixes of the same list are comparable *)
+Lemma prefixes_comparable : forall (A : Type) (p1 r1 p2 r2 : list A),
+  p1 ++ r1 = p2 ++ r2 -> (exists m, p2 = p1 ++ m /\ r1 = m ++ r2) \/ (exists m, p1 = p2 ++ m /\ r2 = m ++ r1).
+Proof.
+  induction p1 as [|x p1 IH]; intros r1 p2 r2 H.
+  - left. exists p2. cbn in *. auto.
+  - destruct p2 as [|y p2].
+    + right. exists (x :: p1). cbn in *. auto.
+    + cbn [app] in H. inversion H; subst.
+      destruct (IH _ _ _ H2) as [[m [Ha Hb]]|[m [Ha Hb]]].
+      * left. exists m. subst. auto.
+      * right. exists m. subst. auto.
+Qed.
+
+Lemma snoc_cases : forall (A : Type) (l : list A), l = [] \/ exists m e, l = m ++ [e].
+Proof.
+  intros A l. destruct l as [|x l] using rev_ind; [left; reflexivity|right; eauto].
+Qed.
+
+Lemma encp_prefix_lt : forall I pre m, m <> [] -> nlen (encp I pre) < nlen (encp I (pre ++ m)).
+Proof.
+  intros I pre m Hm. destruct m as [|e m]; [congruence|].
+  pose proof (encp_app_lt I pre e m). lia.
+Qed.
+
+Lemma prefix_of_le : forall I (p1 r1 p2 r2 : list entry),
+  p1 ++ r1 = p2 ++ r2 -> nlen (encp I p1) <= nlen (encp I p2) ->
+  exists m, p2 = p1 ++ m /\ r1 = m ++ r2.
+Proof.
+  intros I p1 r1 p2 r2 H Hle.
+  destruct (prefixes_comparable _ _ _ _ _ H) as [X|[m [A B]]]; [exact X|].
+  destruct m as [|e m].
+  - exists []. rewrite app_nil_r in A. subst. cbn in *. rewrite app_nil_r. auto.
+  - subst p1. pose proof (encp_prefix_lt I p2 (e :: m) ltac:(discriminate)). lia.
+Qed.
+
+Lemma prefix_of_eq : forall I (p1 r1 p2 r2 : list entry),
+  p1 ++ r1 = p2 ++ r2 -> nlen (encp I p1) = nlen (encp I p2) -> p1 = p2 /\ r1 = r2.
+Proof.
+  intros I p1 r1 p2 r2 H Heq.
+  destruct (prefix_of_le I _ _ _ _ H ltac:(lia)) as [m [A B]].
+  destruct m as [|e m].
+  - rewrite app_nil_r in A. subst. auto.
+  - subst p2. pose proof (encp_prefix_lt I p1 (e :: m) ltac:(discriminate)). lia.
+Qed.
+
+Lemma prefix_of_lt : forall I (p1 r1 p2 r2 : list entry),
+  p1 ++ r1 = p2 ++ r2 -> nlen (encp I p1) < nlen (encp I p2) ->
+  exists m e, p2 = p1 ++ m ++ [e] /\ r1 = m ++ e :: r2.
+Proof.
+  intros I p1 r1 p2 r2 H Hlt.
+  destruct (prefix_of_le I _ _ _ _ H ltac:(lia)) as [m [A B]].
+  destruct (snoc_cases _ m) as [->|[m' [e ->]]].
+  - rewrite app_nil_r in A. subst. lia.
+  - exists m', e. split; [exact A|]. rewrite B, <- app_assoc. reflexivity.
+Qed.
+
+Lemma encp_nil_len : forall I pre, nlen (encp I pre) = 0 -> pre = [].
+Proof.
+  intros I pre H. destruct pre as [|e pre]; [reflexivity|].
+  pose proof (encp_app_lt I [] e pre). cbn [app] in H0. unfold encp at 1 in H0. cbn [enc_entries] in H0.
+  rewrite nlen_nil in H0. lia.
+Qed.
+
 (* ------------------------------------------------------------------ *)
 (* the iterator over a block  b = encp es ++ TR                        *)
 (* ------------------------------------------------------------------ *)
@@ -330,12 +394,13 @@ Proof.
   { destruct (bf_rp _ _ _ Hb) as [off [R1 R2]]. exists off. unfold it1. cbn [bi_ridx bi_cur]. auto. }
   rewrite A. cbn [rbind].
   exists (set_ridx it1 r). split; [reflexivity|].
-  constructor; unfold set_ridx, set_pos, it1, next_entry_offset;
+  assert (Hinv2 : binv1 (set_ridx it1 r)).
+  { apply set_pos_inv; [exact Hinv1|]. unfold it1. cbn [bi_num]. rewrite S4. lia. }
+  constructor; try exact Hinv2; try exact Hes; try exact Hst1; try exact B; try exact C;
+    unfold set_ridx, set_pos, it1, next_entry_offset;
     cbn [bi_data bi_empty bi_restarts bi_status bi_next bi_key bi_voff bi_vlen bi_cur bi_vrest bi_ridx bi_num bi_rarr];
     try reflexivity; try assumption.
-  - apply set_pos_inv; [exact Hinv1|]. unfold it1. cbn [bi_num]. rewrite S4. lia.
-  - unfold next_entry_offset in Hoff. exact Hoff.
-  - unfold next_entry_offset in Hoff. rewrite Hsz. lia.
+  unfold next_entry_offset in Hoff. rewrite Hsz. lia.
 Qed.
 
 (* parse_next_key at the end of the list *)
@@ -352,4 +417,765 @@ Proof.
   - reflexivity.
 Qed.
 
+(* seek_to_restart_point j positions just before the entry of restart point j *)
+Lemma seek_to_restart_before : forall it j,
+  statics it -> binv1 it -> j < num ->
+  exists it' pre rem,
+    seek_to_restart_point it j = Ok it' /\ before it' pre rem /\
+    (rem <> [] \/ es = []) /\ bi_ridx it' = j /\
+    rp j = Ok (nlen (encp I pre)).
+Proof.
+  intros it j Hst Hinv Hj.
+  destruct (Hrestarts j Hj) as [off [Hrp (pre & rem & Hes & Hoff & Hre & Hne)]].
+  unfold seek_to_restart_point. rewrite (get_restart_point_rp it j Hst), Hrp. cbn [rbind].
+  pose proof Hst as (S1 & S2 & S3 & S4 & S5 & S6).
+  assert (Hdrop : drop_n off (bi_data it) = encs I pre rem ++ TR).
+  { rewrite S1. unfold b. rewrite Hes at 1. rewrite encp_app, <- app_assoc, Hoff. apply drop_n_nlen_app. }
+  assert (HoffE : off <= E).
+  { rewrite Hoff. unfold E. rewrite Hes. apply encp_app_le. }
+  match goal with |- exists it' pre rem, Ok ?x = Ok it' /\ _ => set (it1 := x) end.
+  exists it1, pre, rem. split; [reflexivity|].
+  pose proof Hinv as (I1 & I2 & I3 & I4 & I5 & I6).
+  split; [|split; [exact Hne|split; [reflexivity|congruence]]].
+  assert (F1 : statics it1) by exact Hst.
+  assert (F2 : binv1 it1).
+  { unfold binv1, it1. cbn [bi_data bi_restarts bi_num bi_rarr bi_ridx bi_vrest bi_voff bi_vlen bi_next].
+    rewrite N.add_0_r. repeat split; auto; rewrite ?S3, ?S4; lia. }
+  assert (F3 : bi_next it1 = encs I pre rem ++ TR) by exact Hdrop.
+  assert (F4 : next_entry_offset it1 = nlen (encp I pre)).
+  { unfold next_entry_offset, it1. cbn [bi_voff bi_vlen]. lia. }
+  constructor; try assumption.
+  - intros Hr Hp. destruct Hre as [->|Hr']; congruence.
+  - intros _ _. reflexivity.
+  - exists off. rewrite F4. unfold it1. cbn [bi_ridx]. split; [exact Hrp|lia].
+Qed.
+
+(* scanning forward until the end of the current entry reaches a bound *)
+Lemma scan_until_at : forall mid fuel bound it pre e post,
+  before it pre (mid ++ e :: post) ->
+  (length mid <= length fuel)%nat ->
+  (mid <> [] -> nlen (encp I (pre ++ mid)) < bound) ->
+  bound <= nlen (encp I (pre ++ mid ++ [e])) ->
+  exists it', scan_until isint fuel bound it = Ok it' /\ at_entry it' (pre ++ mid) (fst e) (snd e) post.
+Proof.
+  induction mid as [|[k v] mid IH]; intros fuel bound it pre e post Hb Hfuel Hlt Hge.
+  - destruct e as [k v]. cbn [app] in *.
+    destruct (parse_at it pre k v post Hb) as [it' [P A]].
+    assert (Hstop : (next_entry_offset it' <? bound) = false).
+    { rewrite (at_off _ _ _ _ _ A). apply N.ltb_ge. exact Hge. }
+    destruct fuel; cbn [scan_until]; rewrite P; cbn [rbind]; rewrite Hstop; cbn [andb];
+      exists it'; rewrite app_nil_r; auto.
+  - cbn [app] in Hb.
+    destruct (parse_at it pre k v (mid ++ e :: post) Hb) as [it' [P A]].
+    assert (Hgo : (next_entry_offset it' <? bound) = true).
+    { rewrite (at_off _ _ _ _ _ A). apply N.ltb_lt.
+      apply (N.le_lt_trans _ (nlen (encp I (pre ++ (k, v) :: mid)))); [|apply Hlt; discriminate].
+      change ((k, v) :: mid) with ([(k, v)] ++ mid). rewrite app_assoc. apply encp_app_le. }
+    destruct fuel as [|f fuel]; [cbn [length] in Hfuel; lia|].
+    cbn [scan_until]. rewrite P. cbn [rbind]. rewrite Hgo. cbn [andb].
+    destruct (IH fuel bound it' (pre ++ [(k, v)]) e post) as [it'' [S A'']].
+    + apply at_before. exact A.
+    + cbn [length] in Hfuel. lia.
+    + intros Hm. rewrite <- app_assoc. apply Hlt. discriminate.
+    + rewrite <- app_assoc. exact Hge.
+    + exists it''. split; [exact S|]. rewrite <- app_assoc in A''. exact A''.
+Qed.
+
+(* linear search for the first key >= target *)
+Lemma seek_linear_spec : forall mid fuel target it pre rest,
+  before it pre (mid ++ rest) ->
+  (length mid <= length fuel)%nat ->
+  Forall (fun e => cmp (fst e) target = Lt) mid ->
+  match rest with
+  | [] => True
+  | e :: _ => cmp (fst e) target <> Lt
+  end ->
+  exists it', seek_linear cmp isint fuel target it = Ok it' /\
+    match rest with
+    | [] => invalid it'
+    | e :: post => at_entry it' (pre ++ mid) (fst e) (snd e) post
+    end.
+Proof.
+  induction mid as [|[k v] mid IH]; intros fuel target it pre rest Hb Hfuel Hlt Hge.
+  - cbn [app] in Hb. destruct rest as [|[k v] post].
+    + destruct (parse_off_end it pre Hb) as [it' [P Inv]].
+      destruct fuel; cbn [seek_linear]; rewrite P; cbn [rbind negb]; exists it'; auto.
+    + destruct (parse_at it pre k v post Hb) as [it' [P A]].
+      cbn [fst] in Hge.
+      destruct fuel; cbn [seek_linear]; rewrite P; cbn [rbind negb]; rewrite (at_key _ _ _ _ _ A);
+        (destruct (cmp k target) eqn:Ec; [|congruence|]); exists it'; rewrite app_nil_r; auto.
+  - cbn [app] in Hb. inversion Hlt as [|? ? L1 L2]; subst. cbn [fst] in L1.
+    destruct (parse_at it pre k v (mid ++ rest) Hb) as [it' [P A]].
+    destruct fuel as [|f fuel]; [cbn [length] in Hfuel; lia|].
+    cbn [seek_linear]. rewrite P. cbn [rbind negb]. rewrite (at_key _ _ _ _ _ A), L1.
+    destruct (IH fuel target it' (pre ++ [(k, v)]) rest) as [it'' [S R]].
+    + apply at_before. exact A.
+    + cbn [length] in Hfuel. lia.
+    + exact L2.
+    + exact Hge.
+    + exists it''. split; [exact S|]. destruct rest; [exact R|]. rewrite <- app_assoc in R. exact R.
+Qed.
+
+(* ---- binary search over the restart points ---- *)
+Hypothesis Hempty : es = [] -> num = 1.
+
+Definition restart_key_lt (target : bytes) (l : N) : Prop :=
+  exists pre k v post, es = pre ++ (k, v) :: post /\ rp l = Ok (nlen (encp I pre)) /\ cmp k target = Lt.
+
+Lemma restart_decode : forall it j, statics it -> j < num -> es <> [] ->
+  exists pre k v post off,
+    es = pre ++ (k, v) :: post /\ rp j = Ok off /\ off = nlen (encp I pre) /\
+    decode_entry (drop_n off (bi_data it)) off (bi_restarts it)
+    = Ok (Some (0, nlen k, nlen v, nlen (hdr_bytes 0 (nlen k) (nlen v)),
+               k ++ v ++ encs I (pre ++ [(k, v)]) post ++ TR)).
+Proof.
+  intros it j Hst Hj Hne.
+  destruct (Hrestarts j Hj) as [off [Hrp (pre & rem & Hes & Hoff & Hre & Hnn)]].
+  destruct Hnn as [Hnn|Hnn]; [|congruence].
+  destruct rem as [|[k v] post]; [congruence|].
+  exists pre, k, v, post, off. split; [exact Hes|]. split; [exact Hrp|]. split; [exact Hoff|].
+  pose proof Hst as (S1 & S2 & S3 & S4 & S5 & S6).
+  destruct (in_es_wf pre k v post Hes) as (Hk & Hv & K8).
+  assert (Hdrop : drop_n off (bi_data it) = encs I pre ((k, v) :: post) ++ TR).
+  { rewrite S1. unfold b. rewrite Hes at 1. rewrite encp_app, <- app_assoc, Hoff. apply drop_n_nlen_app. }
+  rewrite Hdrop, encs_cons.
+  assert (Hsh : (if restart_at I pre then 0 else shared_len (snd (enc_state I 0 [] pre)) k) = 0).
+  { destruct Hre as [-> | ->]; [|reflexivity]. unfold restart_at. cbn [enc_state fst snd shared_len]. destruct (negb (0 <? I)); reflexivity. }
+  rewrite Hsh, encode_entry_hdr. unfold two32. rewrite !N.mod_small by lia.
+  rewrite N.sub_0_r. rewrite <- !app_assoc. rewrite S3.
+  assert (Hsz : nlen (encp I (pre ++ [(k, v)])) =
+                nlen (encp I pre) + nlen (hdr_bytes 0 (nlen k) (nlen v)) + nlen k + nlen v).
+  { rewrite encp_app, nlen_app. rewrite encs_cons, Hsh, encode_entry_hdr. unfold two32.
+    rewrite !N.mod_small by lia. rewrite N.sub_0_r. rewrite !nlen_app.
+    unfold encs. cbn [enc_entries]. rewrite nlen_nil. change (drop_n 0 k) with k. lia. }
+  assert (HleE : nlen (encp I (pre ++ [(k, v)])) <= E).
+  { unfold E. rewrite Hes. change ((k, v) :: post) with ([(k, v)] ++ post). rewrite app_assoc.
+    apply encp_app_le. }
+  change (drop_n 0 k) with k.
+  rewrite decode_entry_encode; try lia; [reflexivity|].
+  rewrite !nlen_app.
+  assert (HE : E = nlen (encp I pre) + nlen (encs I pre ((k, v) :: post))).
+  { unfold E. rewrite Hes at 1. rewrite encp_app, nlen_app. reflexivity. }
+  rewrite encs_cons, Hsh, encode_entry_hdr in HE. unfold two32 in HE.
+  rewrite !N.mod_small in HE by lia. rewrite N.sub_0_r in HE. rewrite !nlen_app in HE.
+  change (drop_n 0 k) with k in HE. lia.
+Qed.
+
+Lemma seek_bsearch_spec : forall fuel target it lo hi,
+  statics it -> binv1 it -> lo <= hi -> hi < num ->
+  (isint = true -> 8 <= nlen target) ->
+  exists l, seek_bsearch cmp isint fuel target it lo hi = Ok (inr l) /\
+            lo <= l <= hi /\ (l = lo \/ restart_key_lt target l).
+Proof.
+  induction fuel as [|fuel IH]; intros target it lo hi Hst Hinv Hlh Hhi Ht; cbn [seek_bsearch].
+  - destruct (lo <? hi); exists lo; (split; [reflexivity|split; [lia|left; reflexivity]]).
+  - destruct (lo <? hi) eqn:E1; [|exists lo; split; [reflexivity|split; [lia|left; reflexivity]]].
+    assert (Hne : es <> []) by (intros Hn; specialize (Hempty Hn); lia).
+    set (mid := (lo + hi + 1) / 2).
+    assert (Hmid : lo < mid /\ mid <= hi) by (subst mid; lia).
+    destruct (restart_decode it mid Hst ltac:(lia) Hne) as (pre & k & v & post & off & Hes & Hrp & Hoff & Hdec).
+    rewrite (get_restart_point_rp it mid Hst), Hrp. cbn [rbind].
+    rewrite Hdec. cbn [rbind]. replace (negb (0 =? 0)) with false by reflexivity.
+    destruct (in_es_wf pre k v post Hes) as (Hk & Hv & K8).
+    assert (Hk8 : isint && (nlen k <? 8) = false).
+    { destruct isint; [|reflexivity]. specialize (K8 eq_refl). cbn [andb]. lia. }
+    rewrite Hk8.
+    rewrite take_exact_ok by (rewrite nlen_app; lia). cbn [rbind].
+    rewrite take_n_nlen_app.
+    destruct (cmp k target) eqn:Ec.
+    + destruct (IH target it lo (mid - 1) Hst Hinv ltac:(lia) ltac:(lia) Ht) as [l (A & B & C)].
+      exists l. split; [exact A|]. split; [lia|exact C].
+    + destruct (IH target it mid hi Hst Hinv ltac:(lia) ltac:(lia) Ht) as [l (A & B & C)].
+      exists l. split; [exact A|]. split; [lia|].
+      destruct C as [->|C]; [|right; exact C].
+      right. exists pre, k, v, post. split; [exact Hes|]. split; [rewrite Hrp, Hoff; reflexivity|exact Ec].
+    + destruct (IH target it lo (mid - 1) Hst Hinv ltac:(lia) ltac:(lia) Ht) as [l (A & B & C)].
+      exists l. split; [exact A|]. split; [lia|exact C].
+Qed.
+
+(* ---- first loop of Prev ---- *)
+Lemma prev_restart_spec : forall fuel original it,
+  statics it -> binv1 it -> bi_ridx it < num -> (N.to_nat (bi_ridx it) <= length fuel)%nat ->
+  exists r, prev_restart fuel original it = Ok r /\
+    match r with
+    | None => original = 0
+    | Some it1 => exists r1 off, it1 = set_ridx it r1 /\ r1 < num /\ rp r1 = Ok off /\ off < original
+    end.
+Proof.
+  induction fuel as [|x fuel IH]; intros original it Hst Hinv Hr Hfuel; cbn [prev_restart];
+    rewrite (get_restart_point_rp it _ Hst);
+    destruct (Hrestarts (bi_ridx it) Hr) as [off [Hrp _]]; rewrite Hrp; cbn [rbind].
+  - assert (H0 : bi_ridx it = 0) by (cbn [length] in Hfuel; lia).
+    rewrite H0 in *. rewrite Hrp0 in Hrp. inversion Hrp; subst off.
+    destruct (original <=? 0) eqn:E1.
+    + cbn. exists None. split; [reflexivity|lia].
+    + exists (Some it). split; [reflexivity|]. exists 0, 0. rewrite <- H0 at 1. rewrite set_ridx_self.
+      split; [reflexivity|]. split; [lia|]. split; [exact Hrp0|lia].
+  - destruct (original <=? off) eqn:E1.
+    + destruct (bi_ridx it =? 0) eqn:E0.
+      * assert (H0 : bi_ridx it = 0) by lia. rewrite H0 in Hrp. rewrite Hrp0 in Hrp. inversion Hrp; subst off.
+        exists None. split; [reflexivity|lia].
+      * destruct (IH original (set_ridx it (bi_ridx it - 1))) as [r [A B]].
+        { exact Hst. }
+        { apply set_pos_inv; [exact Hinv|]. destruct Hst as (_ & _ & _ & Hn & _). rewrite Hn. lia. }
+        { cbn [set_ridx set_pos bi_ridx]. lia. }
+        { cbn [set_ridx set_pos bi_ridx]. cbn [length] in Hfuel. lia. }
+        exists r. split; [exact A|]. destruct r as [it1|]; [|exact B].
+        destruct B as (r1 & off1 & B1 & B2 & B3 & B4). exists r1, off1.
+        rewrite set_ridx_twice in B1. auto.
+    + exists (Some it). split; [reflexivity|]. exists (bi_ridx it), off. rewrite set_ridx_self.
+      split; [reflexivity|]. split; [exact Hr|]. split; [exact Hrp|lia].
+Qed.
+
+(* ================================================================== *)
+(* the reference cursor and the simulation                             *)
+(* ================================================================== *)
+Hypothesis Hsorted : forall pre k v mid k' v' post,
+  es = pre ++ (k, v) :: mid ++ (k', v') :: post -> cmp k k' = Lt.
+Hypothesis Hlt_trans : forall x y z, cmp x y = Lt -> cmp y z = Lt -> cmp x z = Lt.
+Hypothesis Hlt_eq : forall x y z, cmp x y = Lt -> cmp y z = Eq -> cmp x z = Lt.
+
+Definition zip := (list entry * entry * list entry)%type.
+
+Definition sim (it : biter) (z : option zip) : Prop :=
+  match z with
+  | None => invalid it
+  | Some (pre, e, post) => at_entry it pre (fst e) (snd e) post
+  end.
+
+Definition zip_obs (z : option zip) : option entry :=
+  match z with None => None | Some (_, e, _) => Some e end.
+
+Fixpoint split_lt (t : bytes) (l : list entry) : list entry * list entry :=
+  match l with
+  | [] => ([], [])
+  | e :: l' =>
+      match cmp (fst e) t with
+      | Lt => (e :: fst (split_lt t l'), snd (split_lt t l'))
+      | _ => ([], l)
+      end
+  end.
+
+Definition ref_first : option zip :=
+  match es with [] => None | e :: post => Some ([], e, post) end.
+Definition ref_last : option zip :=
+  match rev es with [] => None | e :: rpre => Some (rev rpre, e, []) end.
+Definition ref_next (z : zip) : option zip :=
+  let '(pre, e, post) := z in
+  match post with [] => None | e' :: post' => Some (pre ++ [e], e', post') end.
+Definition ref_prev (z : zip) : option zip :=
+  let '(pre, e, post) := z in
+  match rev pre with [] => None | e' :: rpre => Some (rev rpre, e', e :: post) end.
+Definition ref_seek (t : bytes) : option zip :=
+  match snd (split_lt t es) with
+  | [] => None
+  | e :: post => Some (fst (split_lt t es), e, post)
+  end.
+Definition ref_step (op : iop) (z : option zip) : option zip :=
+  match op with
+  | IFirst => ref_first
+  | ILast => ref_last
+  | ISeek t => ref_seek t
+  | INext => match z with Some z' => ref_next z' | None => None end
+  | IPrev => match z with Some z' => ref_prev z' | None => None end
+  end.
+
+Lemma split_lt_spec : forall t l,
+  l = fst (split_lt t l) ++ snd (split_lt t l) /\
+  Forall (fun e => cmp (fst e) t = Lt) (fst (split_lt t l)) /\
+  match snd (split_lt t l) with [] => True | e :: _ => cmp (fst e) t <> Lt end.
+Proof.
+  induction l as [|e l IH]; cbn [split_lt]; [cbn; auto|].
+  destruct (cmp (fst e) t) eqn:Ec; cbn [fst snd app].
+  - split; [reflexivity|]. split; [constructor|congruence].
+  - destruct IH as (A & B & C). split; [f_equal; exact A|]. split; [constructor; assumption|exact C].
+  - split; [reflexivity|]. split; [constructor|congruence].
+Qed.
+
+Lemma sim_statics : forall it z, sim it z -> statics it /\ binv1 it.
+Proof.
+  intros it [[[pre e] post]|] H; cbn [sim] in H.
+  - split; [apply (at_st _ _ _ _ _ H)|apply (at_inv _ _ _ _ _ H)].
+  - destruct H as (A & B & _). auto.
+Qed.
+
+Lemma length_es_le_b : (length es <= length b)%nat.
+Proof.
+  unfold b. rewrite app_length. unfold encp. pose proof (enc_entries_length es I 0 []). lia.
+Qed.
+
+Lemma sublist_fuel : forall (pre mid post : list entry), es = pre ++ mid ++ post -> (length mid <= length b)%nat.
+Proof.
+  intros pre mid post H. pose proof length_es_le_b. rewrite H in H0 at 1. rewrite !app_length in H0. lia.
+Qed.
+
+(* linear search from a position before which every key is below the target *)
+Lemma linear_from : forall target it pre rem,
+  before it pre rem ->
+  Forall (fun e => cmp (fst e) target = Lt) pre ->
+  exists it', seek_linear cmp isint (bi_data it) target it = Ok it' /\ sim it' (ref_seek target).
+Proof.
+  intros target it pre rem Hb Hpre.
+  pose proof (bf_es _ _ _ Hb) as Hes.
+  destruct (split_lt_spec target es) as (Hsplit & Hlt & Hge).
+  set (a := fst (split_lt target es)) in *. set (bb := snd (split_lt target es)) in *.
+  assert (Hmid : exists mid, a = pre ++ mid /\ rem = mid ++ bb).
+  { rewrite Hes in Hsplit.
+    destruct (prefixes_comparable _ _ _ _ _ Hsplit) as [X|[m [A B]]]; [exact X|].
+    destruct m as [|e m].
+    - exists []. rewrite app_nil_r in A. cbn [app] in B. subst. rewrite app_nil_r. auto.
+    - exfalso. rewrite B in Hge. cbn [app] in Hge. apply Hge.
+      rewrite Forall_forall in Hpre. apply Hpre. rewrite A. apply in_or_app. right. left. reflexivity. }
+  destruct Hmid as [mid [Ha Hrem]].
+  assert (Hltmid : Forall (fun e => cmp (fst e) target = Lt) mid).
+  { rewrite Ha in Hlt. apply Forall_app in Hlt. apply Hlt. }
+  rewrite Hrem in Hb.
+  destruct (bf_st _ _ _ Hb) as (S1 & _). rewrite S1.
+  destruct (seek_linear_spec mid b target it pre bb Hb) as [it' [A B]].
+  { apply (sublist_fuel pre mid bb). rewrite Hes, Hrem. reflexivity. }
+  { exact Hltmid. }
+  { exact Hge. }
+  exists it'. split; [exact A|]. unfold ref_seek. fold a. fold bb.
+  destruct bb as [|e post]; [exact B|]. cbn [sim]. rewrite Ha. exact B.
+Qed.
+
+(* all keys before a restart point chosen by the binary search are below the target *)
+Lemma restart_pre_lt : forall target l pre rem,
+  es = pre ++ rem -> rp l = Ok (nlen (encp I pre)) ->
+  (l = 0 \/ restart_key_lt target l) ->
+  Forall (fun e => cmp (fst e) target = Lt) pre.
+Proof.
+  intros target l pre rem Hes Hrp [->|(pre' & k & v & post & Hes' & Hrp' & Hc)].
+  - rewrite Hrp0 in Hrp. inversion Hrp as [H0]. symmetry in H0. apply encp_nil_len in H0. subst. constructor.
+  - rewrite Hrp in Hrp'. inversion Hrp' as [Hl].
+    assert (Heq : pre ++ rem = pre' ++ (k, v) :: post) by congruence.
+    destruct (prefix_of_eq I _ _ _ _ Heq Hl) as [-> _].
+    apply Forall_forall. intros [k0 v0] Hin. cbn [fst].
+    destruct (in_split _ _ Hin) as [p1 [p2 Hp]].
+    apply (Hlt_trans k0 k target); [|exact Hc].
+    apply (Hsorted p1 k0 v0 p2 k v post). rewrite Hes', Hp, <- app_assoc. reflexivity.
+Qed.
+
+(* ---- the five operations ---- *)
+Lemma first_sim : forall it z, sim it z ->
+  exists it', biter_first isint it = Ok it' /\ sim it' ref_first.
+Proof.
+  intros it z Hs. destruct (sim_statics it z Hs) as [Hst Hinv].
+  unfold biter_first. destruct Hst as (S1 & S2 & S3 & S4 & S5 & S6). rewrite S2.
+  destruct (seek_to_restart_before it 0 ltac:(repeat split; assumption) Hinv ltac:(lia))
+    as (it1 & pre & rem & -> & Hb & Hne & Hr & Hrp). cbn [rbind].
+  rewrite Hrp0 in Hrp. inversion Hrp as [H0]. symmetry in H0. apply encp_nil_len in H0. subst pre.
+  pose proof (bf_es _ _ _ Hb) as Hes. cbn [app] in Hes.
+  unfold ref_first. destruct rem as [|[k v] post].
+  - destruct (parse_off_end it1 [] Hb) as [it' [-> Inv]]. cbn [rbind].
+    exists it'. split; [reflexivity|]. rewrite Hes. exact Inv.
+  - destruct (parse_at it1 [] k v post Hb) as [it' [-> A]]. cbn [rbind].
+    exists it'. split; [reflexivity|]. rewrite Hes. exact A.
+Qed.
+
+Lemma next_sim : forall it pre e post, sim it (Some (pre, e, post)) ->
+  exists it', biter_next isint it = Ok it' /\ sim it' (ref_next (pre, e, post)).
+Proof.
+  intros it pre [k v] post Hs. cbn [sim fst snd] in Hs.
+  unfold biter_next. destruct (at_st _ _ _ _ _ Hs) as (_ & S2 & _). rewrite S2.
+  pose proof (at_before _ _ _ _ _ Hs) as Hb. cbn [ref_next].
+  destruct post as [|[k' v'] post'].
+  - destruct (parse_off_end it _ Hb) as [it' [-> Inv]]. cbn [rbind]. exists it'. auto.
+  - destruct (parse_at it _ k' v' post' Hb) as [it' [-> A]]. cbn [rbind]. exists it'. auto.
+Qed.
+
+Lemma last_sim : forall it z, sim it z ->
+  exists it', biter_last isint it = Ok it' /\ sim it' ref_last.
+Proof.
+  intros it z Hs. destruct (sim_statics it z Hs) as [Hst Hinv].
+  unfold biter_last. pose proof Hst as (S1 & S2 & S3 & S4 & S5 & S6). rewrite S2, S4, S3, S1.
+  destruct (seek_to_restart_before it (num - 1) Hst Hinv ltac:(lia))
+    as (it1 & pre & rem & -> & Hb & Hne & Hr & Hrp). cbn [rbind].
+  pose proof (bf_es _ _ _ Hb) as Hes. unfold ref_last.
+  destruct (snoc_cases _ rem) as [->|[mid [e ->]]].
+  - destruct Hne as [Hne|Hne]; [congruence|].
+    rewrite Hne. cbn [rev].
+    destruct (parse_off_end it1 pre Hb) as [it' [P Inv]].
+    exists it'. split; [|exact Inv].
+    destruct b; cbn [scan_until]; rewrite P; cbn [rbind andb]; reflexivity.
+  - destruct (scan_until_at mid b E it1 pre e [] Hb) as [it' [A B]].
+    + apply (sublist_fuel pre mid [e]). exact Hes.
+    + intros Hm. unfold E. rewrite Hes. rewrite app_assoc. apply encp_prefix_lt. discriminate.
+    + unfold E. rewrite Hes. apply N.le_refl.
+    + exists it'. split; [exact A|].
+      rewrite Hes, app_assoc, rev_app_distr. cbn [rev app]. rewrite rev_involutive.
+      cbn [sim]. exact B.
+Qed.
+
+Lemma prev_sim : forall it pre e post, sim it (Some (pre, e, post)) ->
+  exists it', biter_prev isint it = Ok it' /\ sim it' (ref_prev (pre, e, post)).
+Proof.
+  intros it pre [k v] post Hs. cbn [sim fst snd] in Hs.
+  pose proof (at_st _ _ _ _ _ Hs) as Hst. pose proof Hst as (S1 & S2 & S3 & S4 & S5 & S6).
+  pose proof (at_inv _ _ _ _ _ Hs) as Hinv.
+  unfold biter_prev. rewrite S2, S1.
+  destruct (prev_restart_spec b (bi_cur it) it Hst Hinv (at_ridx _ _ _ _ _ Hs)) as [r [-> Hr]].
+  { pose proof (at_ridx _ _ _ _ _ Hs). unfold b. rewrite app_length.
+    assert (length TR = N.to_nat (4 * num + 4)) by (unfold nlen in HTR; lia). lia. }
+  cbn [rbind]. cbn [ref_prev].
+  destruct r as [it1|].
+  - destruct Hr as (r1 & off & -> & Hr1 & Hrp1 & Hlt).
+    replace (bi_ridx (set_ridx it r1)) with r1 by reflexivity.
+    destruct (seek_to_restart_before (set_ridx it r1) r1 Hst) as (it2 & pre_r & rem_r & Hseek & Hb & Hne & Hri & Hrp).
+    { apply set_pos_inv; [exact Hinv|]. rewrite S4. lia. }
+    { exact Hr1. }
+    rewrite Hseek. cbn [rbind].
+    rewrite Hrp1 in Hrp. inversion Hrp as [Hoff]. rewrite (at_cur _ _ _ _ _ Hs) in Hlt. rewrite Hoff in Hlt.
+    pose proof (bf_es _ _ _ Hb) as Hes_r. pose proof (at_es _ _ _ _ _ Hs) as Hes.
+    assert (Heq : pre_r ++ rem_r = pre ++ (k, v) :: post) by congruence.
+    destruct (prefix_of_lt I _ _ _ _ Heq Hlt) as (m & e' & Hpre & Hrem).
+    rewrite Hrem in Hb.
+    destruct (scan_until_at m b (bi_cur it) it2 pre_r e' ((k, v) :: post) Hb) as [it' [A B]].
+    + apply (sublist_fuel pre_r m (e' :: (k, v) :: post)). rewrite Hes_r, Hrem. reflexivity.
+    + intros Hm. rewrite (at_cur _ _ _ _ _ Hs), Hpre, app_assoc. apply encp_prefix_lt. discriminate.
+    + rewrite (at_cur _ _ _ _ _ Hs), Hpre. apply N.le_refl.
+    + exists it'. split; [exact A|].
+      rewrite Hpre, app_assoc, rev_app_distr. cbn [rev app]. rewrite rev_involutive.
+      cbn [sim]. exact B.
+  - rewrite (at_cur _ _ _ _ _ Hs) in Hr. apply encp_nil_len in Hr. subst pre. cbn [rev].
+    eexists. split; [reflexivity|]. cbn [sim]. split; [exact Hst|]. split.
+    + apply set_pos_inv; [exact Hinv|]. rewrite S4. lia.
+    + cbn [set_pos bi_cur]. exact S3.
+Qed.
+
+(* uniqueness of the split: a position whose predecessors are below the target and
+   whose key is not, is the position Seek must reach *)
+Lemma ref_seek_unique : forall target pre e post,
+  es = pre ++ e :: post ->
+  Forall (fun x => cmp (fst x) target = Lt) pre -> cmp (fst e) target <> Lt ->
+  ref_seek target = Some (pre, e, post).
+Proof.
+  intros target pre e post Hes Hpre Hge.
+  destruct (split_lt_spec target es) as (Hsplit & Hlt & Hg).
+  unfold ref_seek.
+  set (a := fst (split_lt target es)) in *. set (bb := snd (split_lt target es)) in *.
+  rewrite Hes in Hsplit.
+  destruct (prefixes_comparable _ _ _ _ _ Hsplit) as [[m [A B]]|[m [A B]]].
+  - destruct m as [|x m].
+    + rewrite app_nil_r in A. cbn [app] in B. rewrite <- B, A. reflexivity.
+    + exfalso. cbn [app] in B. inversion B; subst x. apply Hge.
+      rewrite Forall_forall in Hlt. apply Hlt. rewrite A. apply in_or_app. right. left. reflexivity.
+  - destruct m as [|x m].
+    + rewrite app_nil_r in A. cbn [app] in B. rewrite B, <- A. reflexivity.
+    + exfalso. rewrite B in Hg. cbn [app] in Hg. apply Hg.
+      rewrite Forall_forall in Hpre. apply Hpre. rewrite A. apply in_or_app. right. left. reflexivity.
+Qed.
+
+Lemma pre_lt_current : forall pre k v post target,
+  es = pre ++ (k, v) :: post -> (cmp k target = Lt \/ cmp k target = Eq) ->
+  Forall (fun x => cmp (fst x) target = Lt) pre.
+Proof.
+  intros pre k v post target Hes Hc. apply Forall_forall. intros [k0 v0] Hin. cbn [fst].
+  destruct (in_split _ _ Hin) as [p1 [p2 Hp]].
+  assert (H0 : cmp k0 k = Lt).
+  { apply (Hsorted p1 k0 v0 p2 k v post). rewrite Hes, Hp, <- app_assoc. reflexivity. }
+  destruct Hc as [Hc|Hc]; [apply (Hlt_trans _ _ _ H0 Hc)|apply (Hlt_eq _ _ _ H0 Hc)].
+Qed.
+
+Lemma seek_sim : forall target it z, sim it z ->
+  (isint = true -> 8 <= nlen target) ->
+  exists it', biter_seek cmp isint target it = Ok it' /\ sim it' (ref_seek target).
+Proof.
+  intros target it z Hs Ht. destruct (sim_statics it z Hs) as [Hst Hinv].
+  pose proof Hst as (S1 & S2 & S3 & S4 & S5 & S6).
+  unfold biter_seek. rewrite S2.
+  assert (Ht8 : isint && (nlen target <? 8) = false).
+  { destruct isint; [|reflexivity]. specialize (Ht eq_refl). cbn [andb]. lia. }
+  rewrite Ht8.
+  (* generic tail: restart at l (chosen soundly), then linear search *)
+  assert (Hfrom : forall l, l < num -> (l = 0 \/ restart_key_lt target l) ->
+            exists it', (it1 <~ seek_to_restart_point it l ;; seek_linear cmp isint (bi_data it) target it1) = Ok it'
+                        /\ sim it' (ref_seek target)).
+  { intros l Hl Hsound.
+    destruct (seek_to_restart_before it l Hst Hinv Hl) as (it1 & pre & rem & -> & Hb & _ & _ & Hrp).
+    cbn [rbind].
+    pose proof (restart_pre_lt target l pre rem (bf_es _ _ _ Hb) Hrp Hsound) as Hpre.
+    destruct (linear_from target it1 pre rem Hb Hpre) as [it' [A B]].
+    destruct (bf_st _ _ _ Hb) as (S1' & _). rewrite S1' in A. rewrite S1.
+    exists it'. auto. }
+  destruct z as [[[pre [k v]] post]|]; cbn [sim fst snd] in Hs.
+  - (* valid *)
+    rewrite (at_valid _ _ _ _ _ Hs). rewrite (at_key _ _ _ _ _ Hs). cbn [andb].
+    pose proof (at_es _ _ _ _ _ Hs) as Hes.
+    destruct (cmp k target) eqn:Ec.
+    + (* already there *)
+      exists it. split; [reflexivity|].
+      rewrite (ref_seek_unique target pre (k, v) post Hes); [exact Hs| |cbn [fst]; congruence].
+      apply (pre_lt_current pre k v post target Hes). right. exact Ec.
+    + (* current key below the target *)
+      destruct (seek_bsearch_spec 64 target it (bi_ridx it) (bi_num it - 1) Hst Hinv) as [l (-> & Hl & Hsound)].
+      { pose proof (at_ridx _ _ _ _ _ Hs). rewrite S4. lia. }
+      { rewrite S4. lia. }
+      { exact Ht. }
+      cbn [rbind]. rewrite S4 in Hl.
+      destruct (l =? bi_ridx it) eqn:El; cbn [andb].
+      * (* continue from the current position *)
+        cbn [rbind].
+        assert (Hpre : Forall (fun x => cmp (fst x) target = Lt) (pre ++ [(k, v)])).
+        { apply Forall_app. split; [apply (pre_lt_current pre k v post target Hes); left; exact Ec|].
+          constructor; [exact Ec|constructor]. }
+        destruct (linear_from target it _ _ (at_before _ _ _ _ _ Hs) Hpre) as [it' [A B]].
+        exists it'. auto.
+      * destruct Hsound as [->|Hsound]; [lia|].
+        apply Hfrom; [lia|right; exact Hsound].
+    + (* current key above the target *)
+      destruct (seek_bsearch_spec 64 target it 0 (bi_ridx it) Hst Hinv) as [l (-> & Hl & Hsound)].
+      { lia. }
+      { apply (at_ridx _ _ _ _ _ Hs). }
+      { exact Ht. }
+      cbn [rbind]. rewrite andb_false_r.
+      apply Hfrom; [pose proof (at_ridx _ _ _ _ _ Hs); lia|exact Hsound].
+  - (* invalid *)
+    rewrite (invalid_not_valid it Hs). cbn [andb].
+    destruct (seek_bsearch_spec 64 target it 0 (bi_num it - 1) Hst Hinv) as [l (-> & Hl & Hsound)].
+    { lia. }
+    { rewrite S4. lia. }
+    { exact Ht. }
+    cbn [rbind]. rewrite andb_false_r. rewrite S4 in Hl.
+    apply Hfrom; [lia|exact Hsound].
+Qed.
+
+(* ---- scripts ---- *)
+Definition op_ok (op : iop) : Prop :=
+  match op with ISeek t => isint = true -> 8 <= nlen t | _ => True end.
+
+Lemma step_sim : forall op it z, sim it z -> op_ok op ->
+  exists it', biter_step cmp isint op it = Ok it' /\ sim it' (ref_step op z).
+Proof.
+  intros op it z Hs Hop. destruct op; cbn [biter_step ref_step].
+  - apply (first_sim it z Hs).
+  - apply (last_sim it z Hs).
+  - apply (seek_sim t it z Hs Hop).
+  - destruct z as [[[pre e] post]|].
+    + cbn [sim] in Hs. rewrite (at_valid _ _ _ _ _ Hs). apply next_sim. exact Hs.
+    + rewrite (invalid_not_valid it Hs). exists it. auto.
+  - destruct z as [[[pre e] post]|].
+    + cbn [sim] in Hs. rewrite (at_valid _ _ _ _ _ Hs). apply prev_sim. exact Hs.
+    + rewrite (invalid_not_valid it Hs). exists it. auto.
+Qed.
+
+Lemma sim_observe : forall it z, sim it z -> biter_observe it = Ok (zip_obs z).
+Proof.
+  intros it [[[pre [k v]] post]|] Hs; cbn [sim zip_obs fst snd] in *.
+  - apply (at_observe _ _ _ _ _ Hs).
+  - unfold biter_observe. rewrite (invalid_not_valid it Hs). reflexivity.
+Qed.
+
+Fixpoint ref_run (ops : list iop) (z : option zip) : list (option entry) :=
+  match ops with
+  | [] => []
+  | op :: ops' => zip_obs (ref_step op z) :: ref_run ops' (ref_step op z)
+  end.
+
+Lemma run_sim : forall ops it z, sim it z -> Forall op_ok ops ->
+  exists it', biter_run cmp isint ops it = Ok (ref_run ops z, it') /\ bi_status it' = SOk.
+Proof.
+  induction ops as [|op ops IH]; intros it z Hs Hops.
+  - cbn [biter_run ref_run]. exists it. split; [reflexivity|].
+    destruct (sim_statics it z Hs) as [(_ & _ & _ & _ & _ & S6) _]. exact S6.
+  - inversion Hops; subst.
+    rewrite biter_run_cons.
+    destruct (step_sim op it z Hs H1) as [it1 [-> Hs1]]. cbn [rbind].
+    rewrite (sim_observe it1 _ Hs1). cbn [rbind].
+    destruct (IH it1 _ Hs1 H2) as [it2 [-> St]]. cbn [rbind ref_run].
+    exists it2. auto.
+Qed.
+
 End Sim.
+
+(* ================================================================== *)
+(* instantiation: blocks produced by the block builder                 *)
+(* ================================================================== *)
+Lemma flat_map_app2 : forall (A B : Type) (f : A -> list B) l1 l2,
+  flat_map f (l1 ++ l2) = flat_map f l1 ++ flat_map f l2.
+Proof. induction l1; intros; cbn [flat_map app]; [reflexivity|]. rewrite IHl1, app_assoc. reflexivity. Qed.
+
+Lemma de32_flat_map_nth : forall rs tail j x,
+  nth_error rs j = Some x -> x < 4294967296 ->
+  de32 (drop_n (N.of_nat j * 4) (flat_map le32 rs ++ tail)) = Some x.
+Proof.
+  intros rs tail j x Hn Hx.
+  destruct (nth_error_split _ _ Hn) as (l1 & l2 & -> & Hl).
+  rewrite flat_map_app2. cbn [flat_map]. rewrite <- !app_assoc.
+  rewrite drop_n_app_exact by (rewrite flat_map_le32_length; unfold nlen; lia).
+  apply de32_le32. exact Hx.
+Qed.
+
+(* where the builder records restart points *)
+Definition restart_rec (I : N) (pre : list entry) (off : N) : Prop :=
+  off = 0 \/ exists p r, pre = p ++ r /\ r <> [] /\ off = nlen (encp I p) /\ restart_at I p = true.
+
+Lemma bb_add_all_restarts : forall I es pre bld,
+  bb_size bld = nlen (encp I pre) ->
+  bb_counter bld = fst (enc_state I 0 [] pre) ->
+  bb_last bld = snd (enc_state I 0 [] pre) ->
+  Forall (restart_rec I pre) (bb_restarts bld) ->
+  Forall (restart_rec I (pre ++ es)) (bb_restarts (bb_add_all I bld es)) /\
+  bb_size (bb_add_all I bld es) = nlen (encp I (pre ++ es)).
+Proof.
+  intros I es. induction es as [|[k v] es IH]; intros pre bld Hs Hc Hl Hr.
+  - cbn [bb_add_all fold_left]. rewrite app_nil_r. auto.
+  - unfold bb_add_all in *. cbn [fold_left fst snd].
+    change ((k, v) :: es) with ([(k, v)] ++ es). rewrite app_assoc.
+    apply IH.
+    + unfold bb_add. cbn [bb_size]. rewrite Hs, Hc, Hl.
+      rewrite encp_app, nlen_app. f_equal. rewrite encs_cons. unfold restart_at.
+      unfold encs. cbn [enc_entries]. rewrite app_nil_r. reflexivity.
+    + unfold bb_add. cbn [bb_counter]. rewrite enc_state_app. cbn [enc_state fst snd]. rewrite Hc. reflexivity.
+    + unfold bb_add. cbn [bb_last]. rewrite last_state_snoc. reflexivity.
+    + unfold bb_add. cbn [bb_restarts].
+      assert (Hold : Forall (restart_rec I (pre ++ [(k, v)])) (bb_restarts bld)).
+      { eapply Forall_impl; [|exact Hr]. intros off [H0|(p & r & A & B & C & D)]; [left; exact H0|].
+        right. exists p, (r ++ [(k, v)]). split; [rewrite A, <- app_assoc; reflexivity|].
+        split; [destruct r; discriminate|auto]. }
+      destruct (negb (bb_counter bld <? I)) eqn:Er; [|exact Hold].
+      constructor; [|exact Hold].
+      right. exists pre, [(k, v)]. split; [reflexivity|]. split; [discriminate|].
+      split; [exact Hs|]. unfold restart_at. rewrite <- Hc. exact Er.
+Qed.
+
+Theorem block_cursor_sim : forall cmp isint I es ops,
+  wf_entries es -> keys_ge8 isint es ->
+  nlen (block_build I es) < 4294967296 ->
+  (* the keys are strictly sorted under cmp, a strict order compatible with Eq *)
+  (forall pre k v mid k' v' post, es = pre ++ (k, v) :: mid ++ (k', v') :: post -> cmp k k' = Lt) ->
+  (forall x y z, cmp x y = Lt -> cmp y z = Lt -> cmp x z = Lt) ->
+  (forall x y z, cmp x y = Lt -> cmp y z = Eq -> cmp x z = Lt) ->
+  Forall (op_ok isint) ops ->
+  block_run cmp isint (block_build I es) ops = Ok (ref_run cmp es ops None, SOk).
+Proof.
+  intros cmp isint I es ops [Hwf Hcount] H8 Hsize Hsorted Htrans Hlteq Hops.
+  unfold block_build, bb_finish in *.
+  assert (Hinv0 : bb_inv bb_empty) by (unfold bb_inv; cbn; lia).
+  destruct (bb_add_all_inv es I bb_empty Hinv0) as [[Hn H1] Hle].
+  cbn [bb_empty bb_nrestarts] in Hle.
+  destruct (bb_restarts_last es I bb_empty [] eq_refl) as [l' Hl'].
+  destruct (bb_add_all_restarts I es [] bb_empty eq_refl eq_refl eq_refl) as [Hrec Hbsize].
+  { constructor; [left; reflexivity|constructor]. }
+  cbn [app] in Hrec, Hbsize.
+  rewrite bb_add_all_buffer in *. cbn [bb_empty bb_buffer bb_chunks rev concat app bb_counter bb_last] in *.
+  set (bb := bb_add_all I bb_empty es) in *.
+  change (enc_entries I 0 [] es) with (encp I es) in *.
+  set (n := bb_nrestarts bb) in *.
+  set (rs := rev (bb_restarts bb)) in *.
+  assert (Hrs0 : exists rs', rs = 0 :: rs') by (subst rs; rewrite Hl', rev_app_distr; eexists; reflexivity).
+  assert (Hrslen : nlen rs = n) by (subst rs; unfold nlen; rewrite rev_length; fold (nlen (bb_restarts bb)); lia).
+  set (TR := flat_map le32 rs ++ le32 n) in *.
+  assert (HTR : nlen TR = 4 * n + 4).
+  { subst TR. rewrite nlen_app, flat_map_le32_length, Hrslen.
+    replace (nlen (le32 n)) with 4 by (unfold nlen; rewrite le32_length; reflexivity). lia. }
+  set (E := nlen (encp I es)) in *.
+  assert (Hsz : nlen (encp I es ++ TR) = E + 4 * n + 4) by (rewrite nlen_app, HTR; lia).
+  (* the restart points *)
+  assert (HrsE : Forall (fun off => restart_rec I es off) rs).
+  { subst rs. apply Forall_rev. exact Hrec. }
+  assert (Hrp : forall j, j < n -> exists off, rp I es TR j = Ok off /\ restart_entry I es off).
+  { intros j Hj.
+    destruct (nth_error rs (N.to_nat j)) as [off|] eqn:En.
+    2:{ apply nth_error_None in En. unfold nlen in Hrslen. lia. }
+    assert (Hin : In off rs) by (eapply nth_error_In; exact En).
+    rewrite Forall_forall in HrsE. specialize (HrsE off Hin).
+    assert (Hre : restart_entry I es off /\ off <= E).
+    { destruct HrsE as [->|(p & r & A & B & C & D)].
+      - split; [|lia]. exists [], es. split; [reflexivity|]. split; [reflexivity|]. split; [left; reflexivity|].
+        destruct es; [right; reflexivity|left; discriminate].
+      - split.
+        + exists p, r. split; [exact A|]. split; [exact C|]. split; [right; exact D|left; exact B].
+        + rewrite C. unfold E. rewrite A. apply encp_app_le. }
+    destruct Hre as [Hre HoffE].
+    exists off. split; [|exact Hre].
+    unfold rp. subst TR.
+    replace (j * 4) with (N.of_nat (N.to_nat j) * 4) by lia.
+    rewrite (de32_flat_map_nth rs (le32 n) (N.to_nat j) off En) by lia.
+    fold E. replace (E <? off) with false by lia. reflexivity. }
+  assert (Hrp0 : rp I es TR 0 = Ok 0).
+  { destruct Hrs0 as [rs' Hrs']. unfold rp. subst TR. rewrite Hrs'. cbn [flat_map].
+    rewrite <- !app_assoc. change (drop_n (0 * 4) (le32 0 ++ flat_map le32 rs' ++ le32 n)) with (le32 0 ++ flat_map le32 rs' ++ le32 n).
+    rewrite de32_le32 by lia. replace (nlen (encp I es) <? 0) with false by lia. reflexivity. }
+  assert (Hempty : es = [] -> n = 1) by (intros ->; reflexivity).
+  (* block_init / biter_create *)
+  unfold block_run, block_init. rewrite Hsz.
+  replace (E + 4 * n + 4 <? 4) with false by lia.
+  assert (Hlast : drop_n (E + 4 * n + 4 - 4) (encp I es ++ TR) = le32 n).
+  { subst TR. rewrite !app_assoc. apply drop_n_app_exact.
+    rewrite nlen_app, flat_map_le32_length, Hrslen. fold E. lia. }
+  unfold read32. replace (E + 4 * n + 4 <? E + 4 * n + 4 - 4 + 4) with false by lia.
+  rewrite Hlast. rewrite <- (app_nil_r (le32 n)) at 1. rewrite de32_le32 by lia. cbn [rbind].
+  replace ((E + 4 * n + 4 - 4) / 4 <? n) with false by lia.
+  cbn [rbind].
+  unfold biter_create. cbn [blk_size blk_data blk_len blk_restarts].
+  replace (E + 4 * n + 4 <? 4) with false by lia.
+  unfold read32. replace (E + 4 * n + 4 <? E + 4 * n + 4 - 4 + 4) with false by lia.
+  rewrite Hlast. rewrite <- (app_nil_r (le32 n)) at 1. rewrite de32_le32 by lia. cbn [rbind].
+  replace (n =? 0) with false by lia. cbv beta iota. cbn [rbind].
+  replace (E + 4 * n + 4 - (1 + n) * 4) with E by lia.
+  assert (Hrarr : drop_n E (encp I es ++ TR) = TR) by (apply drop_n_nlen_app).
+  rewrite Hrarr.
+  set (it0 := mk_biter (encp I es ++ TR) false E n TR E n [] 0 0 (encp I es ++ TR) (encp I es ++ TR) SOk).
+  assert (Hsim0 : sim I es TR n it0 None).
+  { cbn [sim]. unfold invalid, statics, it0.
+    cbn [bi_data bi_empty bi_restarts bi_num bi_rarr bi_status bi_cur].
+    split; [repeat split; reflexivity|]. split; [|reflexivity].
+    unfold binv1. cbn [bi_data bi_restarts bi_num bi_rarr bi_ridx bi_vrest bi_voff bi_vlen bi_next].
+    repeat split; try reflexivity; try lia. symmetry. exact Hrarr. }
+  destruct (run_sim cmp isint I es TR n Hwf H8 HTR H1 Hrp Hrp0 Hempty Hsorted Htrans Hlteq ops it0 None Hsim0 Hops)
+    as [it' [-> St]].
+  cbn [rbind]. unfold biter_status. rewrite St. reflexivity.
+Qed.
+
+(* the bytewise comparator satisfies the order hypotheses *)
+Corollary block_cursor_sim_bytewise : forall I es ops,
+  wf_entries es ->
+  nlen (block_build I es) < 4294967296 ->
+  (forall pre k v mid k' v' post, es = pre ++ (k, v) :: mid ++ (k', v') :: post -> bytes_compare k k' = Lt) ->
+  block_run bytes_compare false (block_build I es) ops = Ok (ref_run bytes_compare es ops None, SOk).
+Proof.
+  intros I es ops Hwf Hsz Hsorted.
+  apply block_cursor_sim; auto.
+  - intros H; discriminate.
+  - apply bytes_compare_lt_trans.
+  - intros x y z H1 H2. apply bytes_compare_eq_iff in H2. subst. exact H1.
+  - apply Forall_forall. intros op _. destruct op; cbn; auto. intros H; discriminate.
+Qed.
+
+(* the internal-key comparator satisfies the order hypotheses as well *)
+Lemma tbl_ikey_compare_lt_trans : forall x y z,
+  tbl_ikey_compare x y = Lt -> tbl_ikey_compare y z = Lt -> tbl_ikey_compare x z = Lt.
+Proof.
+  intros x y z. unfold tbl_ikey_compare.
+  destruct (bytes_compare (tbl_user_key x) (tbl_user_key y)) eqn:E1;
+  destruct (bytes_compare (tbl_user_key y) (tbl_user_key z)) eqn:E2; intros H1 H2; try discriminate.
+  - apply bytes_compare_eq_iff in E1. apply bytes_compare_eq_iff in E2.
+    rewrite E1, E2, bytes_compare_refl.
+    rewrite N.compare_lt_iff in H1, H2. apply N.compare_lt_iff. lia.
+  - apply bytes_compare_eq_iff in E1. rewrite E1, E2. reflexivity.
+  - apply bytes_compare_eq_iff in E2. rewrite <- E2, E1. reflexivity.
+  - rewrite (bytes_compare_lt_trans _ _ _ E1 E2). reflexivity.
+Qed.
+
+Lemma tbl_ikey_compare_lt_eq : forall x y z,
+  tbl_ikey_compare x y = Lt -> tbl_ikey_compare y z = Eq -> tbl_ikey_compare x z = Lt.
+Proof.
+  intros x y z. unfold tbl_ikey_compare.
+  destruct (bytes_compare (tbl_user_key y) (tbl_user_key z)) eqn:E2; intros H1 H2; try discriminate.
+  apply bytes_compare_eq_iff in E2. apply N.compare_eq_iff in H2.
+  rewrite <- E2, H2. exact H1.
+Qed.
+
+Corollary block_cursor_sim_internal : forall I es ops,
+  wf_entries es -> keys_ge8 true es ->
+  nlen (block_build I es) < 4294967296 ->
+  (forall pre k v mid k' v' post, es = pre ++ (k, v) :: mid ++ (k', v') :: post -> tbl_ikey_compare k k' = Lt) ->
+  Forall (op_ok true) ops ->
+  block_run tbl_ikey_compare true (block_build I es) ops = Ok (ref_run tbl_ikey_compare es ops None, SOk).
+Proof.
+  intros I es ops Hwf H8 Hsz Hsorted Hops.
+  apply block_cursor_sim; auto.
+  - apply tbl_ikey_compare_lt_trans.
+  - apply tbl_ikey_compare_lt_eq.
+Qed.
